@@ -1,8 +1,9 @@
-(* C12 — Instruction read/write information covers what the CPU really does.  Statements only; proofs are in
-   coq/theories/RwInfo/*Proofs.v and (reflection over the generated tables and database cases) coq/gen/C12_X86Cover.v. *)
+(* C12 — Instruction read/write information covers what the CPU really does.  Part 1: theorems that do not depend on generated data
+   (byte-level mini-semantics vs. the model's masks, masking, vpternlog, link to the generic path, query_features and AVX512_VL).
+   Parts 2 and 3 (reflection over the tables and database cases of the working tree): Properties_C12_X86.v, Properties_C12_A64.v.
+   Statements only; proofs are in coq/theories/RwInfo/*Proofs.v. *)
 From Coq Require Import NArith ZArith List Bool.
 From Verif Require Import RwInfo.RwModel RwInfo.FeatModel RwInfo.RwSpec RwInfo.RwProofs RwInfo.RegWrite RwInfo.RegWriteProofs RwInfo.A64RwModel RwInfo.A64RwProofs RwInfo.FeatProofs.
-From VerifGen Require Import C12_X86RwTables C12_X86Cases_rm_bad C12_X86Cases_cover_bad C12_X86Cover C12_A64Tables C12_A64Cases C12_A64Access.
 Import ListNotations.
 Local Open Scope N_scope.
 
@@ -33,10 +34,17 @@ Theorem C12_gp_bytes_exact_zero_extended_x64 : forall (vw : nat) (old val : list
 Proof. exact gp_bytes_exact_zx64. Qed.
 Print Assumptions C12_gp_bytes_exact_zero_extended_x64.
 
-(* FALSE in 32-bit mode (pinned code, known finding): the zeroed bytes 2..3 of `pextrw eax, xmm0, 0` are in neither mask. *)
-Theorem C12_gp_bytes_x86_partial_refuted : exists old val b, (b < 8)%nat /\ ~ gp_byte_spec false D32 2 old val b.
-Proof. exact gp_bytes_x86_partial_refuted. Qed.
-Print Assumptions C12_gp_bytes_x86_partial_refuted.
+(* 32-bit mode, a 1..4-byte value zero-extended into a 32-bit destination (pextrw eax, xmm0, 0): the same exactness.  This statement was
+   REFUTED on the pinned tree (C12_gp_bytes_x86_partial_refuted, rounds 1-2); it holds with fixes/C12-gp-partial-write-masks.patch. *)
+Theorem C12_gp_bytes_exact_zero_extended_x86 : forall (vw : nat) (old val : list N) (b : nat),
+  (1 <= vw <= 4)%nat -> (b < 8)%nat ->
+  let o := reported_gp false D32 vw in
+  byte_at (gp_write false D32 vw old val) b =
+    if Nat.leb 0 b && N.testbit (o_w o) (N.of_nat (b - 0)) then byte_at val (b - 0)
+    else if Nat.leb 0 b && N.testbit (o_e o) (N.of_nat (b - 0)) then 0
+    else byte_at old b.
+Proof. exact gp_bytes_exact_zx32. Qed.
+Print Assumptions C12_gp_bytes_exact_zero_extended_x86.
 
 (* Vector registers, VEX/EVEX/XOP encodings: an n-byte result (1 <= n <= 64) — reported write mask = the n low bytes, reported
    extend mask = exactly the bytes zeroed up to MAXVL; for both helpers the code uses (rw_zero_extend_non_vec with the vector group
@@ -79,78 +87,6 @@ Theorem C12_ternlog_dest_unused : forall imm a b c, imm < 256 -> N.shiftr imm 4 
   ternlog imm a b c = ternlog imm (negb a) b c.
 Proof. exact ternlog_dest_unused. Qed.
 Print Assumptions C12_ternlog_dest_unused.
-
-(* The generated case lists (sizes of this snapshot). *)
-Theorem C12_case_counts : exists n_ok n_rm_bad n_cover_bad,
-  (N.of_nat (length x86_cases_ok), N.of_nat (length x86_cases_rm_bad), N.of_nat (length x86_cases_cover_bad)) = (n_ok, n_rm_bad, n_cover_bad) /\
-  0 < n_ok.
-Proof. eexists _, _, _. split; [exact x86_case_counts | reflexivity]. Qed.
-Print Assumptions C12_case_counts.
-
-(* covers_db: for every validator-accepted operand tuple built from every form of the ISA database that AsmJit's tables contain
-   (lists x86_cases_ok ++ x86_cases_rm_bad of coq/gen), the model of query_rw_info over the dumped tables answers, and its answer
-   covers the database in the sense of RwSpec.covers: read/written operands flagged, reported read bytes include the database's,
-   reported written+extended bytes include every byte that changes (exactly those for general-purpose registers), fixed registers
-   with their ids, consecutive-register leads and followers, CPU flags read/written, {k} read, merge-masked destination read. *)
-Theorem C12_covers_db : forall c, In c (x86_cases_ok ++ x86_cases_rm_bad) ->
-  exists out, query_rw_info x86_tables (c_q c) = Some out /\ covers c out.
-Proof. exact x86_covers_db. Qed.
-Print Assumptions C12_covers_db.
-
-(* FALSE for the cases of x86_cases_cover_bad (known findings): 32-bit mode partial writes into r32, `mov r16, sreg`. *)
-Theorem C12_covers_db_refuted : forall c, In c x86_cases_cover_bad -> case_covered x86_tables c = false.
-Proof. exact x86_covers_db_refuted. Qed.
-Print Assumptions C12_covers_db_refuted.
-
-(* rm_replaceable: for every register-only tuple of x86_cases_ok, an operand reported kRegMem with size s has a database form
-   with an s-byte memory operand at that position, the same access, and the other operands unchanged. *)
-Theorem C12_rm_replaceable : forall c, In c x86_cases_ok -> c_rmcheck c = true ->
-  exists out, query_rw_info x86_tables (c_q c) = Some out /\ rm_claims_true c out.
-Proof. exact x86_rm_replaceable. Qed.
-Print Assumptions C12_rm_replaceable.
-
-(* FALSE for x86_cases_rm_bad (known findings, DESIGN 7.25): kmov*, movd/movq/vmovd/vmovq/vmovw with a GP operand, three-register
-   vpermil*/vpermpd/q/vpsll*/vpsra*/vpsrl*. *)
-Theorem C12_rm_replaceable_refuted : forall c, In c x86_cases_rm_bad -> case_rm_ok x86_tables c = false.
-Proof. exact x86_rm_replaceable_refuted. Qed.
-Print Assumptions C12_rm_replaceable_refuted.
-
-(* AArch64 register lists: for every validator-accepted tuple built from the forms of db/isa_aarch64.json that contain a register
-   list or register pair `Nx{...}` (ld1-4, ld1r-4r, st1-4, casp*; list a64_list_cases of coq/gen), the model of the a64
-   query_rw_info reports each list as a run: some lead operand at or before the list's first register announces at least as many
-   consecutive registers as reach the list's end, and every operand after the lead up to the list's end carries kConsecutive. *)
-Theorem C12_a64_consecutive_runs : forall c, In c a64_list_cases ->
-  exists out, a64_query_rw_info a64_tabs (ac_id c) (ac_ops c) = Some out /\ Forall (run_reported (i_ops out)) (ac_runs c).
-Proof. exact a64_consecutive_runs. Qed.
-Print Assumptions C12_a64_consecutive_runs.
-
-(* FALSE for a64_list_cases_bad (known finding): tbl/tbx with 2..4 table registers report no run at all. *)
-Theorem C12_a64_consecutive_runs_refuted : forall c, In c a64_list_cases_bad -> a64_case_ok a64_tabs c = false.
-Proof. exact a64_consecutive_runs_refuted. Qed.
-Print Assumptions C12_a64_consecutive_runs_refuted.
-
-(* query_features: for every case (all three lists; tuples with vector register / vector index ids 16 and 31 included) the model of
-   x86 query_features over the dumped tables answers, and the reported feature set contains every extension of at least one database
-   form the tuple matches (only EVEX forms match a register id 16..31; AVX512_VL is not required with a 512-bit register or index).
-   Cases recorded as findings (c_featcheck = false; none in this snapshot) are refuted instead. *)
-Theorem C12_features_cover_db : forall c, In c (x86_cases_ok ++ x86_cases_rm_bad ++ x86_cases_cover_bad) ->
-  (c_featcheck c = true -> exists rep, query_features x86_tables x86_feat_consts (c_q c) = Some rep /\ features_cover c rep) /\
-  (c_featcheck c = false -> case_feat_ok x86_tables x86_feat_consts c = false).
-Proof. exact x86_features_cover_db. Qed.
-Print Assumptions C12_features_cover_db.
-
-(* AArch64 operand access, database-wide: for every validator-accepted tuple built from the forms of the expanded db/isa_aarch64.json
-   that AsmJit knows and the tuple builder can express (GP, SIMD scalar/vector/element registers, immediates, base / offset / pre- and
-   post-index memory; a64_access_cases of coq/gen), the model of a64 query_rw_info reports every operand the database names as read
-   (n, m, s, t, x) with kRead and every operand it names as written (d, x) with kWrite. *)
-Theorem C12_a64_access_covers_db : forall c, In c a64_access_cases ->
-  exists out, a64_query_rw_info a64_tabs (ac_id c) (ac_ops c) = Some out /\ access_reported (ac_access c) (i_ops out).
-Proof. exact a64_access_covers_db. Qed.
-Print Assumptions C12_a64_access_covers_db.
-
-Theorem C12_a64_access_covers_db_refuted : forall c, In c a64_access_cases_bad -> a64_case_ok a64_tabs c = false.
-Proof. exact a64_access_covers_db_refuted. Qed.
-Print Assumptions C12_a64_access_covers_db_refuted.
 
 (* Link of the byte-level theorems to the model of query_rw_info (for ALL tables, rows and operand positions): on a written GP register
    operand whose table record has no explicit write mask the generic path reports exactly the masks of C12_gp_bytes_exact
